@@ -99,7 +99,7 @@ func (w *world) byzBuild(s sim.Step) (*specqbft.SignedMessage, spectypes.Operato
 	}
 	from := w.nodes[w.byzIdx[int(s.Arg(0))%len(w.byzIdx)]].id
 	tmpl := int(s.Arg(1)) % nTemplates
-	round := specqbft.Round(1 + s.Arg(2)%12)
+	round := specqbft.Round(1 + s.Arg(2)%17)
 	val := w.values[int(s.Arg(3))%len(w.values)]
 	root := sha256.Sum256(val)
 	pr := specqbft.Round(s.Arg(4) % 12)
